@@ -30,6 +30,18 @@ var stdlibPureNames = map[string]bool{
 	"math.Floor": true, "math.Ceil": true, "math.Log": true, "math.Abs": true, "math.IsNaN": true, "math.IsInf": true,
 }
 
+// stdlibWrites: modelled library functions that write only array elements of the listed types.
+func stdlibWrites(fn *ssa.Function) ([]types.Type, bool) {
+	n := fn.String()
+	switch {
+	case n == "encoding/binary.AppendVarint" || n == "encoding/binary.AppendUvarint":
+		return []types.Type{types.Typ[types.Uint8]}, true
+	case strings.HasPrefix(n, "(encoding/binary.bigEndian).PutUint") || strings.HasPrefix(n, "(encoding/binary.littleEndian).PutUint"):
+		return []types.Type{types.Typ[types.Uint8]}, true
+	}
+	return nil, false
+}
+
 func calleeName(fn *ssa.Function) string {
 	if fn.Pkg == nil && fn.Signature.Recv() == nil {
 		return fn.String()
@@ -137,6 +149,30 @@ func (e *Encoder) stdlibCall(callee *ssa.Function, cm *ssa.CallCommon, args []Va
 			e.store(st, fmt.Sprintf("(lelem (sbase %s) %s)", s.S, c.binopIdx("+", fmt.Sprintf("(soff %s)", s.S), c.idxLit(int64(i)))), u8, b)
 		}
 		return Val{T: resT}, true
+	case n == "encoding/binary.AppendVarint" || n == "encoding/binary.AppendUvarint":
+		// appends between 1 and 10 bytes (contents uninterpreted); prefix kept; in place or fresh array
+		use()
+		s := args[0]
+		key, srt := c.arrKey(u8), c.arrSort(u8)
+		A := st.get(c, key, srt)
+		k := c.fresh("vlen")
+		c.declare(k, c.idx())
+		c.assume(implies(pc, and(c.cmp("<=", intT, c.idxLit(1), k), c.cmp("<=", intT, k, c.idxLit(10)))))
+		slen, scap, soff, sbase := fmt.Sprintf("(slen %s)", s.S), fmt.Sprintf("(scap %s)", s.S), fmt.Sprintf("(soff %s)", s.S), fmt.Sprintf("(sbase %s)", s.S)
+		nn := c.define("n", c.idx(), c.binopIdx("+", slen, k))
+		inplace := c.define("inplace", "Bool", c.cmp("<=", intT, nn, scap))
+		newloc := e.alloc(st)
+		newcap := c.fresh("cap")
+		c.declare(newcap, c.idx())
+		c.assume(implies(pc, and(c.cmp("<=", intT, nn, newcap), c.cmp("<", intT, newcap, c.lit(intT, pow2(62))))))
+		arr := c.fresh("arr")
+		c.declare(arr, fmt.Sprintf("(Array %s %s)", c.idx(), c.sortOf(u8)))
+		start := c.binopIdx("+", soff, slen)
+		inr := and(c.cmp("<=", intT, start, "i!v"), c.cmp("<", intT, "i!v", c.binopIdx("+", start, k)))
+		c.assume(implies(pc, fmt.Sprintf("(forall ((i!v %s)) (! (=> (not %s) (= (select %s i!v) (select (select %s %s) i!v))) :pattern ((select %s i!v))))", c.idx(), inr, arr, A, sbase, arr)))
+		st.mem[key] = c.define("M_"+key, srt, fmt.Sprintf("(store %s (ite %s %s %s) %s)", A, inplace, sbase, newloc, arr))
+		res := c.define("app", "Slice", fmt.Sprintf("(ite %s (mkslice %s %s %s %s) (mkslice %s %s %s %s))", inplace, sbase, soff, nn, scap, newloc, soff, nn, newcap))
+		return Val{T: resT, S: res}, true
 	case n == "math/bits.Len32" || n == "math/bits.Len64" || n == "math/bits.Len":
 		use()
 		w := 64
